@@ -2,6 +2,7 @@
 from props import authlib as A
 from props import c15 as C15
 from props import risklib as R, riskgen as RG
+from props import c13 as C13
 
 ID = "C14"
 MANIFEST = {
@@ -20,7 +21,7 @@ THEOREMS = [
     "C14_bank_state_table", "C14_deposit_borrow_need_operational", "C14_withdraw_repay_liquidate_need_not_paused",
     "C14_reduce_only_withdraw_repay_still_work", "C14_financial_instructions_refused_while_paused",
     "C14_financial_instructions_exist", "C14_paused_iff_flag_and_not_expired", "C14_expired_pause_accepts_again",
-    "C14_pause_constraint_after_expiry", "C14_reduce_only_valuation",
+    "C14_pause_constraint_after_expiry", "C14_reduce_only_valuation", "C14_killed_permanently",
 ]
 RULE = ("enumerated matrix: each of the 21 financial instructions x bank operational state {Operational, Paused, "
         "ReduceOnly, KilledByBankruptcy} (bank-gated instructions; for liquidation on either bank) x {no pause; global "
@@ -183,7 +184,37 @@ def suites(rng, tier):
          "distribution": {"exhaustive": "4 states x 4 kinds"}},
         pause_cache_suite(rng, {"quick": 1200, "thorough": 30000, "search": 8000}[tier]),
         reduce_only_suite(rng, {"quick": 400, "thorough": 6000, "search": 3000}[tier]),
+        killed_suite(rng, {"quick": 150, "thorough": 3000, "search": 1000}[tier]),
     ]
+
+
+def killed_suite(rng, n):
+    """'permanently': a bank killed by the real bankruptcy handler, then every ordered pair / triple of configure_bank
+    requests that name an operational state (alone or with limits riding along), and random admin sequences after a
+    kill; the bank must still be killed after each of them (real lending_pool_configure_bank through the sim runtime)"""
+    cfg2 = C13._std_compact(C13.fx(C13.Fraction(3, 2)), C13.fx(C13.Fraction(5, 4)))
+    cfg2["okey"], cfg2["tag"] = 1, 2
+    head = [C13.NOW] + C13.cfg_toks(cfg2) + [16]
+
+    def opt(state, extra):
+        t = ["N"] * 16
+        t[6:7] = ["S", str(state)]
+        if extra:
+            t[4:5] = ["S", str(rng.choice([0, 1, 10 ** 9, C13.U64]))]
+        return t
+    lines = []
+    seqs = [(a, b) for a in (0, 1, 2) for b in (0, 1, 2)] + [(a, b, c) for a in (0, 2) for b in (0, 1, 2) for c in (1, 2)]
+    while len(lines) < n:
+        sq = seqs[len(lines) % len(seqs)] if len(lines) < 2 * len(seqs) else tuple(rng.choice([0, 1, 2, 3]) for _ in range(rng.choice([1, 2, 3, 4])))
+        base = C13._std_compact(C13.ONE, C13.ONE) if len(lines) % 2 == 0 else C13.gen_cfg(rng, True, tag_std=True)
+        base["op"] = rng.choice([1, 1, 2])
+        steps = [C13.line("ADD", 0, C13.compact_toks(base)), "KILL 0"]
+        for st in sq:
+            if rng.random() < 0.15:
+                steps.append(C13.line("LIM", 0, ["S", rng.randrange(0, C13.U64)], ["N"], ["N"]))
+            steps.append(C13.line("CFG", 0, opt(st, rng.random() < 0.3)))
+        lines.append(C13.line(head, len(steps), *steps))
+    return {"suite": "cfgsim", "name": "killed-permanently", "lines": lines, "distribution": {"sequences": n, "scripted": min(n, 2 * len(seqs))}}
 
 
 def reduce_only_suite(rng, n):
@@ -234,6 +265,8 @@ def oracle_reduce_only(tr):
 
 
 def nontrivial(suite, case, impl):
+    if suite == "cfgsim":
+        return "KILL" in case and C13.nontrivial(suite, case, impl)
     if suite == "risk":
         tr = R.Trace(case, impl)
         return R.gate_nontrivial(tr) or R.liq_nontrivial(tr)
@@ -248,6 +281,9 @@ def oracle(suite, case, impl):
     """C14 evaluated on the real outcome of the cell."""
     if suite == "risk":
         return oracle_reduce_only(R.Trace(case, impl))
+    if suite == "cfgsim":
+        v = C13.oracle(suite, case, impl)
+        return v if v and v["key"] in ("killed-bank-revived",) else None
     if suite == "panic":
         v = C15.oracle(suite, case, impl)
         return v if v and v["key"].startswith("group-") else None
